@@ -351,7 +351,7 @@ func TestVerifC34Gen(t *testing.T) {
 		"the broker's whole validation of a produced batch is len >= 61 (NewRecordBatchFromBytes); measured here: the share of hostile batches handleProduce acknowledged")
 	dir := verifc34.CorpusDir()
 	ctx := context.Background()
-	c34Giant = r.N(1, 4)
+	c34Giant = r.N(1, 2)
 	t.Setenv("KAFSCALE_FLUSH_INTERVAL_MS", "86400000")
 	s3 := storage.NewMemoryS3Client()
 	broker := protocol.MetadataBroker{NodeID: 1, Host: "localhost", Port: 19092}
@@ -471,7 +471,7 @@ func TestVerifC34Gen(t *testing.T) {
 		collect(topic, "broker/fixed:"+f.label)
 	}
 	// (b) hostile batches through the broker
-	nHostile := r.N(400, 12000)
+	nHostile := r.N(400, 5000)
 	accepted := 0
 	for i := 0; i < nHostile; i++ {
 		rng := r.Rand(100000 + i)
@@ -521,7 +521,7 @@ func TestVerifC34Gen(t *testing.T) {
 		collect(topic, "broker/"+strings.Join(labels, "+"))
 	}
 	// (a) harness-wrapped byte strings
-	nMut := r.N(500, 15000)
+	nMut := r.N(500, 5000)
 	for i := 0; i < nMut; i++ {
 		rng := r.Rand(200000 + i)
 		var body []byte
@@ -553,7 +553,7 @@ func TestVerifC34Gen(t *testing.T) {
 		addSeg("mut/"+strings.Join(labels, ","), seg, idx)
 	}
 	// truncation at every byte of small valid segments: the file cut, and the body cut with header/footer intact
-	nTrunc := r.N(2, 12)
+	nTrunc := r.N(2, 8)
 	for i := 0; i < nTrunc; i++ {
 		rng := r.Rand(300000 + i)
 		b := c34Valid(rng, 1+rng.Intn(3))
@@ -582,7 +582,7 @@ func TestVerifC34Gen(t *testing.T) {
 		}
 	}
 	// bit flips and noise
-	nNoise := r.N(300, 8000)
+	nNoise := r.N(300, 3000)
 	for i := 0; i < nNoise; i++ {
 		rng := r.Rand(400000 + i)
 		switch rng.Intn(5) {
@@ -615,7 +615,7 @@ func TestVerifC34Gen(t *testing.T) {
 		}
 	}
 	// index files
-	nIdx := r.N(150, 4000)
+	nIdx := r.N(150, 1500)
 	for i := 0; i < nIdx; i++ {
 		rng := r.Rand(500000 + i)
 		ne := rng.Intn(6)
